@@ -7,6 +7,18 @@ BASELINE_OFF = ("cd /repo && cargo nextest run --workspace --no-fail-fast --offl
 
 # id -> (technique, level text, level note, design ref)
 CHECKS = {
+ "C09": ("exhaustive operand-grid enumeration (unary, binary, 3-operand folds) + proptest random operands; oracle: exact i128 rationals / IEEE binary32 bit patterns over the admissible fold orders",
+         "Exploration, exhaustive over the grid: every unary and binary operation on every (pair of) grid operand(s), every 3-operand fold (thorough; strided sample in quick), plus random operands; an exact result must equal the i128 rational (claimed for operands below 2^15 whose result fits), may otherwise only become an error or inexact, never a different exact number; inexact results are compared bit for bit.",
+         "Trusted: refnum (i128 rationals, f32 ops of the host). Operations are applied through Interpreter::apply_procedure to ready-made values.",
+         "DESIGN.md §5 C09"),
+ "C10": ("exhaustive grid pairs/triples for = < > <= >= max min eqv? + order laws + random operands; oracle: i128 cross-multiplication, binary32 comparison after conversion",
+         "Exploration, exhaustive over the grid (pairs always, triples strided in quick): every predicate on every pair/triple of representations, max/min value and exactness, eqv? on pairs, trichotomy/transitivity/<= decomposition on exact values.",
+         "Trusted: refnum. NaN and signed zero under eqv?/max/min are not judged.",
+         "DESIGN.md §5 C10"),
+ "C16": ("random value trees built in Rust -> Display -> (quote TEXT) -> structural comparison; shape clauses; injectivity on pairs; bulk sweep of binary32 (thorough: every finite value)",
+         "Exploration: 20k (thorough 300k) value trees round-tripped through the real printer and reader and compared in value and exactness, composition of the text checked against the shape rules; every 2048th finite binary32 in quick, all 4.28e9 finite binary32 values in thorough (exhaustive for the real clause).",
+         "Trusted: the SVal snapshot and its equivalence (numbers by value+exactness). Strings, non-finite reals and symbols needing bars are outside the property.",
+         "DESIGN.md §5 C16"),
  "C07": ("exhaustive short strings + grammar-guided token soup + token mutation of real programs (proptest choice sequences, shrinking) + file faults; oracle: no panic by call site, interpreter still evaluates (quote ok)",
          "Exploration: every string up to length 4 over a 20-character alphabet, thousands of grammar-guided soups and mutations, unicode noise and unreadable files are evaluated in-process; any panic (identified by file+message) or a broken sanity form is a violation. Search, not proof: texts beyond the explored sizes are not covered.",
          "Trusted: the panic hook/catch_unwind driver; hook H1 only converts non-termination, deep recursion and huge allocations (outside the claim) into errors. Known findings: exact-integer overflow panics (one root cause).",
